@@ -22,6 +22,7 @@ pub mod checkvar;
 pub mod editdoc;
 pub mod convert_case;
 pub mod verify;
+pub mod injection;
 
 pub struct Ctx {
   pub seed: u64,
@@ -63,6 +64,7 @@ pub fn run(unit: &str, ctx: &Ctx, rng: &mut Rng, o: &mut Out) -> bool {
     "navigation" => navigation::navigation(ctx, rng, o),
     "replace_all" => navigation::replace_all_unit(ctx, rng, o),
     "verify_run" => verify::verify_run(ctx, rng, o),
+    "injection" => injection::injection(ctx, rng, o),
     "frontends_edit" => frontends::frontends_edit(ctx, rng, o),
     "frontends_findings" => frontends::frontends_findings(ctx, rng, o),
     "read_file" => worker::read_file(ctx, rng, o),
@@ -133,6 +135,9 @@ pub fn exec_op(op: &str, a: &serde_json::Value) -> serde_json::Value {
     return v;
   }
   if let Some(v) = verify::exec(op, a) {
+    return v;
+  }
+  if let Some(v) = injection::exec(op, a) {
     return v;
   }
   serde_json::json!({"harness_error": format!("op {op} is not replayable stand-alone")})
